@@ -37,7 +37,11 @@ var solvers = []solverSpec{
 	{"z3", func(t int) []string { return []string{"z3", "-in", "-smt2", fmt.Sprintf("-T:%d", t)} }},
 }
 
-func (o *Obligation) smt(withModel bool) string {
+func (o *Obligation) smt(withModel bool) string { return o.smtV(withModel, !noSkolem) }
+
+// smtV: the query, with the goal's universal quantifiers skolemised or left to the solver.
+// Neither form is uniformly better for z3's trigger matching, so the portfolio races both.
+func (o *Obligation) smtV(withModel, skolem bool) string {
 	if o.Raw != "" {
 		return o.Raw
 	}
@@ -67,7 +71,7 @@ func (o *Obligation) smt(withModel bool) string {
 	}
 	fmt.Fprintf(&b, "; goal %s\n", o.Name)
 	goal := o.Goal
-	if !noSkolem {
+	if skolem {
 		if o.skGoal == "" {
 			o.skGoal, o.skDecls = skolemizeGoal(o.Goal)
 		}
